@@ -97,7 +97,9 @@ def atomic_ops(fn):
         if "sync::atomic::Atomic" in r or r.startswith("crossbeam_epoch::atomic::Atomic") or "portable_atomic::Atomic" in r:
             m = r.split("::")[-1]
             a = arg_syms(c)
-            out.append((c, m, a[0] if a else None, a))
+            if not a or m in ("new", "default", "from", "into_inner", "from_mut", "from_ptr"):
+                continue  # constructors / by-value accessors: not operations on a shared atomic
+            out.append((c, m, a[0], a))
     return out
 
 
@@ -953,9 +955,32 @@ def transformations(s):
     return None
 
 
-def collected_unchanged(crate, v, param):
-    """`v` is <param>.into_iter()[.map(f)].collect() with f a mere change of representation: (ok, why)."""
+def collected_unchanged(crate, v, param, fn=None):
+    """`v` is <param>.into_iter()[.map(f)].collect() with f a mere change of representation — or, given the function, a
+    fresh collection filled by one push/insert per element of <param> with such a value: (ok, why)."""
     v = strip_sym(v)
+    if not sym_is_call(v, "Iterator::collect") and fn is not None and v[0] == "call" and strip_generics(v[1]).split("::")[-1] in ("new", "with_capacity", "default", "with_capacity_and_hasher", "with_hasher"):
+        def base(x):
+            x = strip_sym(x)
+            while isinstance(x, tuple) and x and x[0] in ("ref", "deref"):
+                x = strip_sym(x[1])
+            return x
+
+        adds = [c for c in nonforeign_calls(fn) if callee_method_name(c) in ("push", "insert", "push_back") and c.args and repr(base(arg_syms(c)[0])) == repr(v)]
+        if len(adds) != 1:
+            return False, f"{len(adds)} insertions into the collection"
+        src, why = iteration_context(adds[0])
+        if src is None:
+            return False, why
+        a = sym_arg(sym_through(src, *ITER_VIEWS))
+        if a is None or a[0] != param:
+            return False, "the loop does not run over the parameter"
+        tr = transformations(arg_syms(adds[0])[1])
+        if tr is not None:
+            tr = [t for t in tr if t not in ("next", "into_iter", "iter")]  # how the loop obtains the element
+        if tr != []:
+            return False, f"each element is passed through {tr}"
+        return True, "one insertion per element, kept as it is"
     if not sym_is_call(v, "Iterator::collect"):
         return False, "not collect()ed from the parameter"
     chain = []
